@@ -224,6 +224,17 @@ def generate(rng, k):
                     continue
                 name = os.path.basename(p) if j == 0 or rng.random() < 0.6 else os.path.join("sub", os.path.basename(p))
                 ops.append({"op": "file", "path": name, "content": content})
+    # stratified special shapes, for generated and corpus projects alike (Python only)
+    ri_ = k.get("run_index", 0)
+    fd_ = DIM_CYCLE[ri_ % len(DIM_CYCLE)]
+    if lang == "python":
+        if fd_ == "dirent" and (ri_ // len(DIM_CYCLE)) % 2 == 0 and not any(op["path"].endswith("codec.py") for op in ops):
+            # sibling units whose names differ only in case: their numbering must not follow the directory-entry order
+            ops.append({"op": "file", "path": "Codec.py", "content": "def encode(alpha):\n    return alpha\n"})
+            ops.append({"op": "file", "path": "codec.py", "content": "def decode(beta):\n    sink(beta)\n    return beta\n"})
+        if fd_ == "ws":
+            # specially named locations: code with `%` expressions (a path component must not be mistaken for one)
+            ops.append({"op": "file", "path": "modulo_mod.py", "content": "def modfn(alpha, beta=3):\n    gamma = alpha%beta + alpha % 3\n    return 'slot%d' % gamma\nmodfn(7)\n"})
     other = projgen.gen_project(rng, 1, 2)
     first_other = sorted(other)[0]
     other[first_other] += "\ndef tainted_entry(alpha):\n    eta = alpha\n    sink(eta)\n    return eta\ntainted_entry(1)\n"     # a taint flow
@@ -252,6 +263,8 @@ def generate(rng, k):
         if j == 0:
             fd = DIM_CYCLE[ri % len(DIM_CYCLE)]
             v_ = _gen_variant(rng, baseline, fd, WS_KINDS[(ri // 3) % len(WS_KINDS)] if fd == "ws" else None)
+            if fd == "dirent" and (ri // len(DIM_CYCLE)) % 2 == 0:
+                v_["dirent"] = "reversed"          # an order that certainly differs from the natural one
             if fd == "history":
                 # the kinds of history in turn: another project, the same project, a crashed run, other rules in the settings
                 v_["history"] = [dict(HIST_CYCLE[(ri // len(DIM_CYCLE)) % len(HIST_CYCLE)])] + v_["history"][1:]
